@@ -33,7 +33,7 @@ def __getattr__(name):
             raise CURRENT["raised"]
         return spec["result"]
 
-    digest.__name__ = name
+    digest.__name__ = digest.__qualname__ = spec.get("funcname") or name  # a function may be called like anything - e.g. like another section
     if not spec.get("plain"):
         # constraints are declared as Iterable[str]: lists, tuples, sets and one-shot iterables alike
         shape = {
